@@ -12,8 +12,11 @@ import (
 
 type verifC21Conn struct{ wrote []byte }
 
-func (c *verifC21Conn) Read(p []byte) (int, error)         { return 0, net.ErrClosed }
-func (c *verifC21Conn) Write(p []byte) (int, error)        { c.wrote = append(c.wrote, p...); return len(p), nil }
+func (c *verifC21Conn) Read(p []byte) (int, error) { return 0, net.ErrClosed }
+func (c *verifC21Conn) Write(p []byte) (int, error) {
+	c.wrote = append(c.wrote, p...)
+	return len(p), nil
+}
 func (c *verifC21Conn) Close() error                       { return nil }
 func (c *verifC21Conn) LocalAddr() net.Addr                { return &net.TCPAddr{} }
 func (c *verifC21Conn) RemoteAddr() net.Addr               { return &net.TCPAddr{} }
